@@ -24,8 +24,9 @@
      filter_dataset_to_unique_treatments         filter_unique_view / filter_unique_screen
    Abstracted: numpy storage (a view's attribute arrays are recomputed on each access from the parent, as in
    the code); in-place mutation is not expressible here - every function returns a new value, the harness
-   checks on the real objects that the arguments are left untouched.  Plate.merge, Plate.plate_id/plate_name are
-   not modelled; single_treatment_effects only as the row selection of an opaque parent value (end of this file).  `a | b` on vectors of different length (numpy raises) cannot
+   checks on the real objects that the arguments are left untouched.  Plate.merge (which DOES mutate: it returns the
+   new value of self, parent included), Plate.plate_id / plate_name / __lt__, the one-line ScreenBase properties and Screen.combine
+   are modelled in the last sections of this file; single_treatment_effects only as the row selection of an opaque parent value (end of this file).  `a | b` on vectors of different length (numpy raises) cannot
    arise from views of one parent; [bor_vec] truncates and the constructor's length check then refuses.
 
    Also here: op trees over views ([vexpr]), their evaluator [eval] through the functions above, and the
@@ -336,3 +337,105 @@ Definition opt_result {A} (o : option (result A)) : result (option A) :=
 (* ScreenSubset.single_treatment_effects, given the value of the parent's (computed) property: None propagates *)
 Definition view_single_effects {E} (v : view) (parent_value : option (list E)) : option (list E) :=
   option_map (select (v_sel v)) parent_value.
+
+(* ======================= the small helpers of data.py every other function is built on =======================
+   (harness/src_functions.py H14_*, generated file Generated/SrcPlates.v, proofs Proofs/C14SourceHelpers.v)
+   Models of: Plate.plate_id / plate_name / __lt__ / merge, the one-line properties of ScreenBase (is_observed, n_plates,
+   unique_plate_ids, unique_sample_ids, n_unique_samples, unique_treatments, n_unique_treatments, treatment_arity) on a
+   Screen object and on a ScreenSubset / Plate object, Screen.combine, and the vocabulary their translations use.
+   Error tags (continuing the list above): 28 merge of plates of different parents, 29 plate_id of a view with other than
+   one plate id, 30 boolean mask of the wrong length (numpy IndexError), 31 Screen.combine with another control name,
+   32 np.concatenate of 2-d arrays with different column counts (numpy ValueError); 98 = PyRt.list_get's IndexError
+   (`a[0]` on an empty array), 99 = an id array with a NaN stored where the model keeps integers. *)
+Definition with_plate (nm : name) (r : row) : row :=
+  {| r_sample := r_sample r; r_plate := nm; r_treats := r_treats r; r_obs := r_obs r; r_mask := r_mask r |}.
+Definition with_rows_pids (s : screen) (rows : list row) (pids : list Z) : screen :=
+  {| s_rows := rows; s_arity := s_arity s; s_ctrl := s_ctrl s; s_tmap := s_tmap s; s_smap := s_smap s; s_pmap := s_pmap s;
+     s_tids := s_tids s; s_sids := s_sids s; s_pids := pids |}.
+
+(* ---- vocabulary: one attribute / numpy call each ---- *)
+(* a[m] = x, m a boolean mask, x a scalar: IndexError (tag 30) unless the mask has the array's length; the positions
+   where m is True get x *)
+Definition mask_fill {A} (a : list A) (m : list bool) (x : A) : result (list A) :=
+  if negb (Nat.eqb (length m) (length a)) then Err 30
+  else Ok (map (fun p : bool * A => if fst p then x else snd p) (combine m a)).
+(* s.plate_names = l (the model keeps rows, not columns: row i gets l[i]; an array of another length has no meaning here) *)
+Definition set_screen_plate_names (s : pyscreen) (l : list name) : pyscreen :=
+  (fst s, with_rows_pids (snd s) (map (fun p : name * row => with_plate (fst p) (snd p)) (combine l (s_rows (snd s)))) (s_pids (snd s))).
+(* s._plate_ids = ids, ids an id column as encode_1d_array_to_0_indexed_ids returns it (option = NaN, Model/Screen.v):
+   the model stores integers, an array holding a NaN cannot be stored (tag 99; the encoder raises instead of returning one) *)
+Definition ids_of_column (ids : list (option Z)) : result (list Z) :=
+  res_map_all (fun o => match o with Some z => Ok z | None => Err 99 end) ids.
+Definition store_plate_ids (s : pyscreen) (ids : list (option Z)) : result pyscreen :=
+  dor l <- ids_of_column ids; Ok (fst s, with_rows_pids (snd s) (s_rows (snd s)) l).
+(* np.all(a) *)
+Definition np_all (a : list bool) : bool := forallb (fun b => b) a.
+(* np.unique(a), a a 2-d integer array: the sorted distinct entries *)
+Definition np_unique2 (a : arr2 Z) : list Z := sort_uniq Z.compare (concat (snd a)).
+(* np.concatenate([a, b]), 2-d arrays: ValueError (tag 32) unless they have the same number of columns *)
+Definition concat2 {A} (a b : arr2 A) : result (arr2 A) :=
+  if Nat.eqb (fst a) (fst b) then Ok (fst a, snd a ++ snd b) else Err 32.
+(* s.treatment_ids of a Screen object as a 2-d array (its column count is the screen's arity) *)
+Definition screen_tids2 (s : screen) : arr2 Z := (s_arity s, s_tids s).
+
+(* ---- models ---- *)
+(* ScreenBase.is_observed / unique_plate_ids / n_plates / unique_sample_ids / n_unique_samples / unique_treatments /
+   n_unique_treatments / treatment_arity: on a Screen object ... *)
+Definition screen_is_observed (s : screen) : bool := forallb r_mask (s_rows s).
+Definition screen_unique_pids (s : screen) : list Z := sort_uniq Z.compare (s_pids s).
+Definition screen_unique_sids (s : screen) : list Z := sort_uniq Z.compare (s_sids s).
+Definition unique_treatments_of (tids : list (list Z)) : list Z :=
+  filter (fun x => negb (x =? CONTROL_SENTINEL_VALUE)) (sort_uniq Z.compare (concat tids)).
+Definition screen_unique_treatments (s : screen) : list Z := unique_treatments_of (s_tids s).
+(* ... and on a ScreenSubset / Plate object *)
+Definition view_is_observed (v : view) : bool := forallb (fun b => b) (view_mask v).
+Definition view_unique_pids (v : view) : list Z := sort_uniq Z.compare (view_pids v).
+Definition view_unique_sids (v : view) : list Z := sort_uniq Z.compare (view_sids v).
+Definition view_unique_treatments (v : view) : list Z := unique_treatments_of (view_tids v).
+
+(* Plate.plate_id: the single plate id of the selected rows *)
+Definition view_plate_id (v : view) : result Z :=
+  match view_unique_pids v with [x] => Ok x | _ => Err 29 end.
+(* Plate.plate_name: the plate NAME of the first selected row *)
+Definition view_plate_name (v : view) : result name :=
+  match view_plate_names v with x :: _ => Ok x | [] => Err 98 end.
+(* Plate.__lt__: by size (the order heapq uses) *)
+Definition view_lt (a b : view) : bool := Nat.ltb (view_size a) (view_size b).
+
+(* plate_names[sel] = nm on the rows *)
+Definition relabel (sel : list bool) (nm : name) (rows : list row) : list row :=
+  map (fun p : bool * row => if fst p then with_plate nm (snd p) else snd p) (combine sel rows).
+(* Plate.merge: self.merge(other).  The union becomes self's selection; every row of the union gets the plate name of the
+   union's FIRST row (in the parent); the parent's plate ids are re-encoded from the new names (the parent's plate_mapping is
+   NOT refreshed by the code and keeps its old value); returns self.  Refused: different parents (28), empty union (98),
+   selection vectors that are not of the parent's length (30). *)
+Definition view_merge (self other : view) : result view :=
+  if negb (v_tag other =? v_tag self) then Err 28
+  else
+    let sel := bor_vec (v_sel self) (v_sel other) in
+    let p := v_parent self in
+    match select sel (s_rows p) with
+    | [] => Err 98
+    | r0 :: _ =>
+        if negb (Nat.eqb (length sel) (length (s_rows p))) then Err 30
+        else
+          let rows' := relabel sel (r_plate r0) (s_rows p) in
+          dor e <- encode_names (map r_plate rows') None 6;
+          Ok {| v_tag := v_tag self; v_parent := with_rows_pids p rows' (fst e); v_sel := sel |}
+    end.
+
+(* Screen.combine: the constructor on the two row lists one after the other - observations and masks given, no mappings, the
+   control name and arity of self; refused when the control names differ (31) or the arities differ (32) *)
+Definition screen_combine (a b : screen) : result screen :=
+  if negb (name_eqb (s_ctrl b) (s_ctrl a)) then Err 31
+  else if negb (Nat.eqb (s_arity a) (s_arity b)) then Err 32
+  else mk_screen (s_rows a ++ s_rows b) (s_arity a) (s_ctrl a) None None true true.
+
+(* ---- vocabulary of the translation of common.select_unique_zipped_numpy_arrays ---- *)
+(* np.unique(a, axis=0, return_index=True) on a 2-d integer array: the distinct rows in lexicographic order and, for each,
+   the index of its FIRST occurrence in a (numpy sorts stably when return_index is set) *)
+Definition unique_rows2 (a : arr2 Z) : arr2 Z := (fst a, sort_uniq name_cmp (snd a)).
+Definition first_indices (a : arr2 Z) : list nat := map (fun k => first_index k (snd a)) (sort_uniq name_cmp (snd a)).
+(* a[idx] = True, idx an array of positions: IndexError (tag 34) when a position is outside the array *)
+Definition set_true_at (a : list bool) (idx : list nat) : result (list bool) :=
+  if forallb (fun i => Nat.ltb i (length a)) idx then Ok (scatter a idx (repeat true (length idx))) else Err 34.
